@@ -222,7 +222,7 @@ pub fn isolated_strategy() -> BoxedStrategy<Scenario> {
 pub fn run(ctx: &Ctx) {
     sim::init();
     ctx.set_level("fault_enumeration");
-    ctx.set_rule("both worker roles against a conformant model peer behind a fault network; faults = drop, duplicate, swap with the next datagram of the same direction, delay past one timeout, placed on any data-phase datagram of either direction (the handshake reply is never faulted). Exhaustive: every placement of 1 and 2 faults (thorough: also 3 drop/dup faults) over all emission slots of the transfer for windowsize 1..4 (thorough 1..5), 1/W-1/W/W+1/2W/2W+1 blocks with an empty/short/almost-full last block, two peer styles (RFC 7440 gap-ACK, silent-until-timeout). Random: up to 5 faults over the first 60 datagrams, windowsize up to 16 and 65534/65535, blksize 8..65464, non-dallying client. A third part places 6..11 drop/dup faults at least three windows of datagrams apart (the budget is about consecutive failures, not failures per transfer). A wire part loses 1..3 (thorough 1..5) consecutive copies of one DATA / ACK against the real tftpd with a negotiated timeout of 1 s (both port modes, both directions): the transfer must still complete within 14 s. Oracle: the model peer ends with the complete, correct file and the worker ends successfully; exception only when the final ACK itself was faulted and its sender does not dally. Non-trivial = at least one fault actually hit a datagram; distinct = distinct (scenario, trace shape).");
+    ctx.set_rule("both worker roles against a conformant model peer behind a fault network; faults = drop, duplicate, swap with the next datagram of the same direction, delay past one timeout, placed on any data-phase datagram of either direction (the handshake reply is never faulted). Exhaustive: every placement of 1 and 2 faults (thorough: also 3 drop/dup faults) over all emission slots of the transfer for windowsize 1..4 (thorough 1..5), 1/W-1/W/W+1/2W/2W+1 blocks with an empty/short/almost-full last block, two peer styles (RFC 7440 gap-ACK, silent-until-timeout). Random: up to 5 faults over the first 60 datagrams, windowsize up to 16 and 65534/65535, blksize 8..65464, non-dallying client. A third part places 6..11 drop/dup faults at least three windows of datagrams apart (the budget is about consecutive failures, not failures per transfer). A wire part loses 1..3 (thorough 1..5) consecutive copies of one DATA / ACK against the real tftpd with a negotiated timeout of 1 s (both port modes, both directions): the transfer must still complete within 14 s; finally the real tftpc talks to the real tftpd (single-port) through a UDP relay that drops one chosen data-phase datagram in either direction (timeout 1 s) - both binaries' own socket timeouts are in play. Oracle: the model peer ends with the complete, correct file and the worker ends successfully; exception only when the final ACK itself was faulted and its sender does not dally. Non-trivial = at least one fault actually hit a datagram; distinct = distinct (scenario, trace shape).");
     ctx.assume("precondition 'fewer than 6 consecutive failed receive attempts' is guaranteed by construction: at most 5 faults per transfer and a model peer whose retransmission timer equals the worker's timeout, so each fault costs at most one receive timeout; scenarios with >=6 faults are discarded, not judged");
     ctx.assume("model peer: acknowledges a duplicate of the last acknowledged block once per retransmitted window, repeats its last ACK / window on its own timeout (RFC 1350 conformant)");
     let dirs = DirPool::new(ctx, "c04");
